@@ -72,7 +72,12 @@ func roundtripCase(c *ev.Case) {
 	}
 	segs, digits, single := 1, 0, 0
 	segLen := 0
+	initA, initZ := false, false // a segment begins with the first / the last letter of the alphabet
 	for i := 0; i <= len(x); i++ {
+		if i < len(x) && segLen == 0 {
+			initA = initA || x[i] == 'a'
+			initZ = initZ || x[i] == 'z'
+		}
 		if i == len(x) || x[i] == '_' {
 			if segLen == 1 {
 				single++
@@ -112,6 +117,22 @@ func roundtripCase(c *ev.Case) {
 			return
 		}
 		c.Logf("UcFirst(%q) -> %q, LcFirst -> %q", cam, u, l)
+		// ... and must not turn the (ASCII) camel form into something that is not valid UTF-8
+		c.Add("roundtrip_first_letter_helpers_judged_valid_utf8", 1)
+		if !utf8.ValidString(u) {
+			c.Failf("ucfirst-splits-rune", "UcFirst(%q) = %q which is not valid UTF-8 although the argument is", cam, u)
+			return
+		}
+		if !utf8.ValidString(l) {
+			c.Failf("lcfirst-splits-rune", "LcFirst(%q) = %q which is not valid UTF-8 although the argument is", cam, l)
+			return
+		}
+	}
+	if initA {
+		c.Add("roundtrip_segment_begins_with_a", 1)
+	}
+	if initZ {
+		c.Add("roundtrip_segment_begins_with_z", 1)
 	}
 	if segs >= 2 {
 		c.Add("roundtrip_multi_segment", 1)
@@ -161,19 +182,52 @@ func hugeArg(rng *ev.Rand, l int) int {
 func hugeCase(c *ev.Case) {
 	rng := c.Rng
 	var s string
-	for tries := 0; tries < 20; tries++ {
-		s, _ = genValid(rng)
-		if utf8.RuneCountInString(s) <= 10 {
-			break
+	if rng.Chance(1, 4) {
+		// "arguments beyond the string length" and "strings that are not valid UTF-8" together
+		s = "世\xff"
+		for tries := 0; tries < 20; tries++ {
+			t, _ := genHostile(rng)
+			if len(t) <= 24 && !utf8.ValidString(t) {
+				s = t
+				break
+			}
 		}
-		s = ""
+		c.Add("hugearg_cases_invalid_utf8", 1)
+	} else {
+		for tries := 0; tries < 20; tries++ {
+			s, _ = genValid(rng)
+			if utf8.RuneCountInString(s) <= 10 {
+				break
+			}
+			s = ""
+		}
 	}
 	k := newChk(c, s, "/hugearg")
 	defer k.flush()
 	l := k.v.n()
+	// an argument is huge (see hugeArg), or beyond the rune count by more than the grid of the
+	// other engines goes (the byte length and its neighbours, twice the byte length, up to
+	// 2^20), or inside 0..l+3
 	arg := func(hugeP int) (int, bool) {
 		if rng.Intn(4) < hugeP {
 			return hugeArg(rng, l), true
+		}
+		if rng.Chance(1, 3) {
+			c.Add("hugearg_midrange_args", 1)
+			switch rng.Intn(6) {
+			case 0:
+				return len(s) + rng.Intn(2), true
+			case 1:
+				return 2*len(s) + rng.Intn(3), true
+			case 2:
+				return l + 4 + rng.Intn(60), true
+			case 3:
+				return rng.Pick(255, 256, 257, 65535, 65536, 65537), true
+			case 4:
+				return 1<<20 - rng.Intn(3), true
+			default:
+				return l + 4 + rng.Intn(3*len(s)+8), true
+			}
 		}
 		return rng.Intn(l + 4), false
 	}
@@ -208,24 +262,24 @@ func hugeCase(c *ev.Case) {
 				return
 			}
 			c.Add("hugearg_calls", 1)
-			if ha && hb {
+			if a >= 1<<31-1 && b >= 1<<31-1 {
 				c.Add("hugearg_mask_both_huge", 1)
 			}
 		}
 	}
 	c.Distinct(ev.Mix(5, ev.HashString(s), rng.Uint64()))
 	if c.WantSample() && l >= 2 {
-		c.Sample(fmt.Sprintf("hugearg: %q with start/length/end/limit drawn from {MaxInt-k, 2^62+k, 2^31±1, 2^32±1} and 0..%d: Sub, SubByDisplay, Mask equal to the []rune definitions", s, l+3))
+		c.Sample(fmt.Sprintf("hugearg: %q with start/length/end/limit drawn from {MaxInt-k, 2^62+k, 2^31±1, 2^32±1}, {byte length, twice the byte length, 2^8±1, 2^16±1, 2^20-k, rune count + 4..} and 0..%d: Sub, SubByDisplay, Mask equal to the []rune definitions (no panic when the string is not valid UTF-8)", s, l+3))
 	}
 }
 
 func main() {
 	r := ev.New("C17")
-	r.Rule("one case = one generated string (valid UTF-8 assembled from 1/2/3/4-byte runes incl. the first/last code point of each width and U+FFFD; or an arbitrary byte string with invalid bytes, truncated/overlong/surrogate sequences, byte-sliced or damaged valid strings; or the idx-th string over a 9-token alphabet; or a snake_case identifier) on which every helper is called over the whole argument grid 0..len+3 (-1 for Sub's length; boundary values plus a sample for strings longer than 12 runes); distinct = distinct string; non-trivial = valid string with >= 2 runes of >= 2 different byte widths, or a string that is not valid UTF-8, or an identifier with >= 2 segments; added histories (strength.go): kept and kept-serial (one case at a time) = 2-4 strings (independent, differing in one rune, of one byte length, carved out of one arena, or a string with its own prefix / suffix / inner part) used alternately for 12-48 calls whose results are all judged again after the last call and a churn of same-sized calls, inputs compared with a private copy, masks that are (part of) the input or contain U+FFFD; callback = RemoveRunes predicates that panic on a chosen rune followed by healthy calls, and predicates that call every helper (RemoveRunes included) while the outer call runs; big = strings of 8 bytes to 192 KiB (1.5 MiB thorough) with multi-byte runes or invalid bytes across the multiples of every power of two, arguments at those rune indices and at MaxInt; long-ident = identifiers of 60-66000 bytes whose camel form is not longer and whose snake form is longer than a power of two; cold-start = one fresh process per case whose first golib call is each helper in turn")
+	r.Rule("one case = one generated string (valid UTF-8 assembled from 1/2/3/4-byte runes incl. the first/last code point of each width and U+FFFD; or an arbitrary byte string with invalid bytes, truncated/overlong/surrogate sequences, byte-sliced or damaged valid strings; or the idx-th string over a 9-token alphabet; or a snake_case identifier) on which every helper is called over the whole argument grid 0..len+3 (-1 for Sub's length; boundary values plus a sample for strings longer than 12 runes; hugearg: short valid and invalid strings with arguments at the byte length, twice the byte length, 2^8, 2^16, 2^20, 2^31, 2^32, 2^62 and MaxInt); distinct = distinct string; non-trivial = valid string with >= 2 runes of >= 2 different byte widths, or a string that is not valid UTF-8, or an identifier with >= 2 segments; added histories (strength.go): kept and kept-serial (one case at a time) = 2-4 strings (independent, differing in one rune, of one byte length, carved out of one arena, or a string with its own prefix / suffix / inner part) used alternately for 12-48 calls whose results are all judged again after the last call and a churn of same-sized calls, inputs compared with a private copy, masks that are (part of) the input or contain U+FFFD; callback = RemoveRunes predicates that panic on a chosen rune followed by healthy calls, and predicates that call every helper (RemoveRunes included) while the outer call runs; big = strings of 8 bytes to 192 KiB (1.5 MiB thorough) with multi-byte runes or invalid bytes across the multiples of every power of two, arguments at those rune indices and at MaxInt; long-ident = identifiers of 60-66000 bytes whose camel form is not longer and whose snake form is longer than a power of two; cold-start = one fresh process per case whose first golib call is each helper in turn")
 	r.Assume("a string is a value: a result that was equal to its definition when returned is judged against the same definition again at the end of the case, and an argument string must read the same after the calls; a predicate's own panic travelling back to the caller of RemoveRunes is not judged, the calls after it are; a predicate that calls strz helpers is an ordinary pure predicate")
 	r.Assume("unicode/utf8 (ValidString, DecodeRuneInString, RuneLen) and the Go []rune / strings.Builder.WriteRune conversions are correct; the definitions are evaluated on the decoded rune slice and its byte offsets")
-	r.Assume("for strings that are not valid UTF-8 only 'no panic' is judged; UcFirst/LcFirst/SnakeToCamelCase/CamelCaseToSnake are judged for 'no panic' and for the round trip over [a-z][a-z0-9]*(_[a-z][a-z0-9]*)* only")
-	r.Assume("an empty mask is neither 'one mask rune' nor 'a multi-rune mask': for it only the kept first/last runes and UTF-8 validity are judged")
+	r.Assume("for strings that are not valid UTF-8 only 'no panic' is judged; UcFirst/LcFirst/SnakeToCamelCase/CamelCaseToSnake are judged for 'no panic', for 'the result of a valid UTF-8 argument is valid UTF-8' (never split a rune; which letters they re-case is not judged) and for the round trip over [a-z][a-z0-9]*(_[a-z][a-z0-9]*)* only")
+	r.Assume("an empty mask is neither 'one mask rune' nor 'a multi-rune mask': for it only the kept first/last runes and UTF-8 validity are judged; a mask that is not valid UTF-8 applied to a valid string: only the kept first/last runes are judged (the whole string when they cover it)")
 
 	small := smallCount(4)
 	if r.Thorough() {
@@ -264,6 +318,44 @@ func main() {
 		r.Require(k, 5000)
 	}
 	r.Require("calls_on_invalid_utf8", 1000000)
+	// clause-coverage floors added by the audit: every sub-case a clause quantifies over
+	// (argument classes, rune widths at the cut, the helper called, the generator style)
+	// has a counter of its own, so that none of them can silently stop being produced
+	for _, k := range []string{"sub_length_zero", "sub_start_on_1byte_rune", "sub_end_before_1byte_rune", "sub_end_exactly_at_len",
+		"mask_empty_mask", "mask_start_at_or_beyond_len", "mask_end_at_or_beyond_len", "mask_start_plus_end_equals_len", "mask_start_plus_end_exceeds_len",
+		"mask_single_multibyte_rune_mask",
+		"mask_first_replaced_rune_1byte", "mask_first_replaced_rune_2byte", "mask_first_replaced_rune_3byte", "mask_first_replaced_rune_4byte",
+		"mask_last_replaced_rune_1byte", "mask_last_replaced_rune_2byte", "mask_last_replaced_rune_3byte", "mask_last_replaced_rune_4byte",
+		"mask_invalid_mask_on_valid_string_judged", "mask_invalid_mask_on_valid_string_replacing", "mask_cut_at_invalid_byte",
+		"sbd_limit_zero",
+		"sbd_rune_that_does_not_fit_1byte", "sbd_rune_that_does_not_fit_2byte", "sbd_rune_that_does_not_fit_3byte", "sbd_rune_that_does_not_fit_4byte",
+		"sbd_last_rune_that_fits_1byte", "sbd_last_rune_that_fits_2byte", "sbd_last_rune_that_fits_3byte", "sbd_last_rune_that_fits_4byte",
+		"removerunes_removed_1byte_rune", "removerunes_removed_2byte_rune", "removerunes_removed_3byte_rune", "removerunes_removed_4byte_rune",
+		"removerunes_kept_after_first_removal_1byte_rune", "removerunes_kept_after_first_removal_2byte_rune", "removerunes_kept_after_first_removal_3byte_rune", "removerunes_kept_after_first_removal_4byte_rune",
+		"removerunes_invalid_byte_removed", "removerunes_invalid_byte_kept_after_first_removal",
+		"empty_string_inputs", "valid_inputs_containing_U+FFFD",
+		"casing_first_rune_multibyte", "casing_first_byte_lower_ascii", "casing_first_byte_upper_ascii", "casing_multibyte_rune_in_recased_string",
+		"roundtrip_one_segment", "roundtrip_segment_begins_with_a", "roundtrip_segment_begins_with_z",
+		"hugearg_cases_invalid_utf8"} {
+		r.Require(k, 5000)
+	}
+	for _, k := range []string{"calls_UcFirst", "calls_LcFirst", "calls_SnakeToCamelCase", "calls_CamelCaseToSnake",
+		"invalid_calls_Sub", "invalid_calls_Mask", "invalid_calls_SubByDisplay", "invalid_calls_Rev", "invalid_calls_Len", "invalid_calls_RemoveRunes",
+		"invalid_calls_UcFirst", "invalid_calls_LcFirst", "invalid_calls_SnakeToCamelCase", "invalid_calls_CamelCaseToSnake",
+		"casing_results_judged_valid_utf8", "roundtrip_first_letter_helpers_judged_valid_utf8", "hugearg_midrange_args"} {
+		r.Require(k, 100000)
+	}
+	r.Require("roundtrips_first_up", 25000)
+	for _, st := range []string{"mix", "one-width", "ascii+wide", "wide+ascii", "few-distinct", "pattern", "random-codepoints", "long"} {
+		r.Require("valid_style_"+st, 20000)
+	}
+	for _, st := range []string{"mixed-fragments", "byte-slice", "one-byte-damage", "random-bytes", "wide-then-invalid", "invalid-then-valid", "casing-junk", "long"} {
+		r.Require("hostile_style_"+st, 20000)
+	}
+	r.Require("small_exhaustive_strings", int64(smallCount(4)))
+	for _, kd := range []string{"one-wide-rune", "wide-rune-at-each-multiple", "dense", "one-width", "ascii-wide-last", "invalid-at-multiples"} {
+		r.Require("big_kind_"+kd, 50)
+	}
 	r.Require("roundtrips", 50000)
 	r.Require("roundtrip_multi_segment", 10000)
 	r.Require("roundtrip_with_digits", 5000)
